@@ -18,7 +18,7 @@ LEVEL = "exploration"
 RULE = (
     "one case per (history, prefix, probe): histories of 1-12 assemblies in one process (valid programs, programs failing in the scanner, "
     "parser, expansion, label pass and emission, .map programs, other ROM types, programs whose data ends with the last byte of a mapped region, programs that abandon an expression half-way, programs re-using the probes' macro/symbol/label/table/"
-    "file names with other contents, file-API and in-process CLI runs) followed after every prefix by 28 probes (LoROM, HiROM, low2, .map, "
+    "file names with other contents, file-API and in-process CLI runs) followed after every prefix by 31 probes (LoROM, HiROM, low2, .map, "
     "macros, tables, .incbin, -D, failing probes); each probe result (blocks, labels, root symbols, error kind and text with object "
     "addresses normalised) is compared with the same probe assembled alone in a fresh interpreter, and probes are repeated; batches of probes are also assembled on Program objects that were all constructed before the first of them ran; distinct by "
     "hash of (history prefix, probe); non-trivial = every comparison against a fresh-process baseline"
@@ -74,6 +74,11 @@ def fixed_probes() -> list[dict]:
         {"name": "fail_unmapped_hirom_low_bank", "src": "*=0xC08000\n.db 1\n*=0x008000\n.db 2\n", "rom": "high"},
         {"name": "fail_runs_off_last_bank", "src": "*=0x6FFFFE\n.dl 1, 2\n", "rom": None},
         {"name": "first_expression", "src": ".db 0x12, 0x34\n", "rom": None},
+        {"name": "map_without_identifier", "src": ".map bank_range=0x00, 0x3f addr_range=0x8000, 0xffff mask=0x8000\n.map identifier=2 bank_range=0x7e, 0x7f addr_range=0x0000, 0xffff mask=0x10000 writable=1\n"
+                                                   "*=0x018000\nstart:\n.db 5\n.dl start\n", "rom": None},
+        {"name": "api_text_accented", "via": "api", "fmt": "patch", "rom": "low", "files": {"acc.tbl": "01=c\n02=a\n03=f\n8A=\u00e9\n8B=\u30a2\n"},
+         "src": "*=0x008000\n.table 'acc.tbl'\n.text 'caf\u00e9\u30a2'\ndialog_end:\n.dl dialog_end\n"},
+        {"name": "api_plain", "via": "api", "fmt": "sfc", "rom": "high", "src": "*=0xC08000\nstart:\nlda.w #0x1234\n.dl start\n"},
         {"name": "defines", "src": "*=0x008000\n.dw DEFQ, shared_k\n", "rom": None, "defines": {"DEFQ": 0x1234, "shared_k": 2}},
     ]
 
@@ -112,7 +117,11 @@ def run_action(a: dict):
 
 
 def signature(a: dict) -> dict:
-    return sig_of(run_action(a))
+    r = run_action(a)
+    if hasattr(r, "status") and hasattr(r, "out"):
+        # a file front end: what the caller sees is the status, the failure and the file that was written
+        return {"ok": not r.failed, "err_kind": r.exc or "", "err_text": norm_text((r.exc_text or "")[:300]), "blocks": [[0, (r.out or b"").hex()]], "labels": [], "symbols": []}
+    return sig_of(r)
 
 
 def sig_of(r) -> dict:
@@ -152,6 +161,13 @@ def history_action(rng: random.Random) -> dict:
     c = rng.random()
     addr = rng.choice(ADDRS)
     rom = rng.choice([None, "low", "high", "low2"])
+    extra = rng.random()
+    if extra < 0.04:
+        # a source file that is no valid UTF-8 (a comment saved as Latin-1) through a file front end: it fails, and that is all
+        return {"what": "undecodable_source", "via": rng.choice(["api", "cli"]), "fmt": "patch" if rng.random() < 0.5 else "sfc", "rom": rng.choice(["low", "high"]),
+                "src": f"; caf\ue0ff au lait\n*={addr:#x}\n.db 1\n"}
+    if extra < 0.07:
+        return {"what": "map_without_identifier", "src": ".map bank_range=0x00, 0x3f addr_range=0x8000, 0xffff mask=0x8000\n*=0x008000\n.db 1\n", "rom": None}
     k, mk = rng.randrange(256), rng.randrange(256)
     body = "shared_m(2)\nstart:\n.dl start\nshared_l:\n"
     if c < 0.2:
